@@ -75,7 +75,8 @@ def cases(draw):
     invr = draw(st.sampled_from(["NaN", -9999]))
     left = draw(_map(H, W, dmin, dmax, q, off, invl))
     right = draw(_map(H, W, -dmax, -dmin, q, off, invr))
-    return {"H": H, "W": W, "off": off, "dmin": dmin, "dmax": dmax, "thr": thr, "left": left, "right": right}
+    return {"H": H, "W": W, "off": off, "dmin": dmin, "dmax": dmax, "thr": thr, "left": left, "right": right,
+            "origin": draw(st.sampled_from([[0, 0], [0, 0], [0, 5], [3, 0], [17, 40], [2, 1]]))}
 
 
 def rounds(x: float):
@@ -193,8 +194,10 @@ def body(ctx: Ctx, p: dict) -> None:
     dr = build.arr(p["right"]["d"])
     vl = np.array(p["left"]["m"], dtype=np.uint16)
     vr = np.array(p["right"]["m"], dtype=np.uint16)
-    left = build.disparity_dataset(dl, vl, dmin, dmax, off)
-    right = build.disparity_dataset(dr, vr, -dmax, -dmin, off)
+    # the maps of a ROI / tile keep the coordinates of the whole image: rows and columns need not start at 0
+    r0, c0 = p.get("origin", [0, 0])
+    left = build.disparity_dataset(dl, vl, dmin, dmax, off, row0=r0, col0=c0)
+    right = build.disparity_dataset(dr, vr, -dmax, -dmin, off, row0=r0, col0=c0)
     right_before = build.snapshot(right)
     val = validation.AbstractValidation(validation_method="cross_checking_accurate", cross_checking_threshold=p["thr"])
     out = val.disparity_checking(left, right)
@@ -221,6 +224,8 @@ def body(ctx: Ctx, p: dict) -> None:
         classes.append("nan-on-the-right")
     if off:
         classes.append("offset>0")
+    if p.get("origin", [0, 0]) != [0, 0]:
+        classes.append("coordinates-not-from-0")
     ctx.case(p, nontrivial=bool(n_cons and n_mis and n_occ), classes=classes)
 
 
